@@ -283,7 +283,16 @@ def encoder(rep, prog, enc, par, roles):
                 # t comes from the t component of convert(opslimit, memlimit), m from the m component
                 po, pm = ax[i].find("_1." + ".".join(want_ops[T_I][1])), ax[i].find("_1." + ".".join(want_ops[M_I][1]))
                 comp_, _cv = cm.conv_component(prog, call_arg_exprs(calls[0])[i])
-                ok = comp_ == ("t" if i == T_I else "m") and 0 <= po < pm
+                ok = comp_ == ("t" if i == T_I else "m") and po >= 0 and pm >= 0
+                if ok and _cv is not None:
+                    # the stored opslimit goes to the conversion's u64 parameter, the stored memlimit to its
+                    # usize parameter (whatever their order)
+                    gcv_ = prog.callee_fns(_cv)
+                    cax_ = [deep_repr(x_) for x_ in call_arg_exprs(_cv)]
+                    for j_, tx_ in enumerate(cax_[:2]):
+                        wantf = want_ops[T_I][1] if gcv_ and gcv_[0].locals[j_ + 1]["t"] == "u64" else want_ops[M_I][1]
+                        otherf = want_ops[M_I][1] if wantf is want_ops[T_I][1] else want_ops[T_I][1]
+                        ok = ok and ("_1." + ".".join(wantf)) in tx_ and ("_1." + ".".join(otherf)) not in tx_
             rep.ob("ENCODER", "PwHash::to_string passes %s" % role, ok,
                    "encoder operand %d is %s (object field roles %s)" % (i, ax[i][:120] if i < len(ax) else "?", orole), loc=calls[0].loc())
     # from_string fills the same fields from parsed content
@@ -330,16 +339,17 @@ def encoder(rep, prog, enc, par, roles):
         rep.floor("parsed lengths recorded by PwHash::from_string", n_len, 2)
     # crypto_pwhash_str passes the algorithm it hashed with
     for f in prog.by_path.get("classic::crypto_pwhash::crypto_pwhash_str", []):
-        a2 = [c for c in f.calls() if c.rpath.endswith("argon2::argon2_hash")]
+        a2 = [c for c in f.calls() if cm.is_argon2_call(prog, c)]
         ec = [c for c in f.calls() if enc0 in prog.callee_fns(c)]
         if a2 and ec:
-            t_hash = deep_repr(call_arg_exprs(a2[0])[8])
+            A2 = cm.argon2_arg_index(prog)
+            t_hash = deep_repr(call_arg_exprs(a2[0])[A2["type"]])
             t_enc = deep_repr(call_arg_exprs(ec[0])[{r_: i_ for i_, r_ in encoder_param_roles(enc).items()}.get("alg", 0)])
             ok = ("Argon2id" in t_hash) == ("Argon2id" in t_enc) and ("Argon2i" in t_hash or "Argon2id" in t_hash)
             rep.ob("ENCODER", "crypto_pwhash_str encodes the algorithm it used", ok, "hashed with %s, encoded as %s" % (t_hash[-40:], t_enc[-40:]), loc=ec[0].loc())
             # salt and hash operands of the encoder are the buffers used / produced by Argon2
-            r_salt = cm.view_info(f, list(operand_locals(a2[0].args[4]))[0])[0]
-            r_out = cm.view_info(f, list(operand_locals(a2[0].args[7]))[0])[0]
+            r_salt = cm.view_info(f, list(operand_locals(a2[0].args[A2["salt"]]))[0])[0]
+            r_out = cm.view_info(f, list(operand_locals(a2[0].args[A2["output"]]))[0])[0]
             ix_ = {r_: i_ for i_, r_ in encoder_param_roles(enc).items()}
             e_salt = cm.view_info(f, list(operand_locals(ec[0].args[ix_.get("salt", 3)]))[0])[0]
             e_hash = cm.view_info(f, list(operand_locals(ec[0].args[ix_.get("hash", 4)]))[0])[0]
@@ -548,11 +558,11 @@ def verify(rep, prog, par, roles):
         rep.violation("ANCHOR", "crypto_pwhash_str_verify", "not found")
         return
     f = inline(prog, fs[0], keep=(lambda g: g.key == par.key,))      # comparison helpers / closures folded in
-    a2 = [c for c in f.calls() if c.rpath.endswith("argon2::argon2_hash")]
+    a2 = [c for c in f.calls() if cm.is_argon2_call(prog, c)]
     if len(a2) != 1:
         rep.violation("ANCHOR", "str_verify argon2 call", "expected one Argon2 call", loc=f.loc())
         return
-    outroot = cm.view_info(f, list(operand_locals(a2[0].args[7]))[0])[0]
+    outroot = cm.view_info(f, list(operand_locals(a2[0].args[cm.argon2_arg_index(prog)["output"]]))[0])[0]
 
     def prims(g):
         if g.key != f.key:
@@ -569,7 +579,8 @@ def verify(rep, prog, par, roles):
     rep.ob("VERIFY", "crypto_pwhash_str_verify authenticated", f.key in auth,
            "Ok only behind ct_eq(recomputed, parsed hash)" if f.key in auth else "an Ok return bypasses the hash comparison: %s" % [f.loc(b) for b, p in r.bad_exits], loc=f.loc())
     ax = call_arg_exprs(a2[0])
-    want = {0: roles["t"], 1: roles["m"], 2: roles["p"], 4: roles["salt"], 8: roles["alg"]}
+    A2 = cm.argon2_arg_index(prog)
+    want = {A2["t"]: roles["t"], A2["m"]: roles["m"], A2["lanes"]: roles["p"], A2["salt"]: roles["salt"], A2["type"]: roles["alg"]}
     pc0 = [c for c in f.calls() if par in prog.callee_fns(c)]
     for i, fld in want.items():
         t = deep_repr(ax[i])
@@ -579,7 +590,7 @@ def verify(rep, prog, par, roles):
                "operand: %s (must be the parsed field itself, through value-preserving adapters only)" % t[:120], loc=a2[0].loc())
     pws = [p for p in cm.params_of(f) if f.locals[p]["t"] in ("&[u8]", "&'_ [u8]")]
     pw = pws[0] if len(pws) == 1 else None
-    rep.ob("VERIFY", "password operand", cm.view_info(f, list(operand_locals(a2[0].args[3]))[0])[0] == pw, "Argon2 password operand is the password parameter", loc=a2[0].loc())
+    rep.ob("VERIFY", "password operand", cm.view_info(f, list(operand_locals(a2[0].args[A2["password"]]))[0])[0] == pw, "Argon2 password operand is the password parameter", loc=a2[0].loc())
     pc = [c for c in f.calls() if par in prog.callee_fns(c)]
     rep.ob("VERIFY", "parses the supplied string", bool(pc) and cm.view_info(f, list(operand_locals(pc[0].args[0]))[0])[0] == 1, "parser receives hashed_password", loc=f.loc())
 
@@ -595,10 +606,16 @@ def rehash(rep, prog, par, roles):
     is_conv = lambda g: _cg is not None and g.key == _cg.key
     f = inline(prog, f0, keep=(lambda g: g.key == par.key or is_conv(g),))
     # (t, m) = convert(opslimit, memlimit): the crate-local call fed by parameters 2 and 3 in that order
-    conv = [c for c in f.calls() if c.is_local and len(c.args) == 2 and
-            [cm.view_info(f, list(operand_locals(a))[0])[0] if operand_locals(a) else None for a in c.args] == [2, 3]]
+    # (t, m) = convert(opslimit, memlimit): the call of the cost conversion fed by parameters 2 (opslimit, to
+    # its u64 parameter) and 3 (memlimit, to its usize parameter)
+    def _fed(c):
+        if _cg is None or len(c.args) != 2 or not any(t_.key == _cg.key for t_ in prog.callee_fns(c)):
+            return False
+        want = {"u64": 2, "usize": 3}
+        return all(operand_locals(a) and cm.view_info(f, list(operand_locals(a))[0])[0] == want.get(_cg.locals[i_ + 1]["t"]) for i_, a in enumerate(c.args))
+    conv = [c for c in f.calls() if c.is_local and _fed(c)]
     rep.ob("REHASH", "convert_costs(opslimit, memlimit)", len(conv) == 1,
-           "%d crate-local call(s) taking (opslimit, memlimit) in that order" % len(conv), loc=f.loc())
+           "%d call(s) of the cost conversion taking (opslimit, memlimit)" % len(conv), loc=f.loc())
     if len(conv) != 1:
         return
     cv = conv[0]
